@@ -13,6 +13,9 @@
 // Statements are translated by continuation: `if c {A}; rest` becomes
 // `if c then [[A; rest]] else [[rest]]`.
 //
+// Byte slices, fixed-width unsigned integers, panics and typed constants are handled by a second translator in wsfext.go
+// (modules whose spec entry has a `sources` list); pointer parameters, bit types and oracles by polext.go.
+//
 // Anything outside this subset makes the tool exit non-zero with "untranslatable: ...", which the
 // orchestrator reports as a broken obligation (never skipped).
 package main
